@@ -51,6 +51,17 @@ def index_loops(fn):
     return out
 
 
+_PAIR_TY = re.compile(r"^(?:const\s+|typename\s+|std::remove_reference<\s*|std::remove_cv<\s*)*(?:std::)?pair<")
+
+
+def _bind_term(i, init, ty):
+    """Structured binding number i of `init`: for a std::pair it is the same term as `.first` / `.second`
+    (so `auto& [k, v] : m` and `auto& kv : m` ... kv.second render alike); otherwise bindN(init)."""
+    if isinstance(ty, str) and _PAIR_TY.match(ty.strip()) and i in (0, 1):
+        return [".", init, "std::pair::first" if i == 0 else "std::pair::second"]
+    return ["bind%d" % i, init]
+
+
 def naming(fn, program=None, allow_overwritten=False):
     """Substitution making atoms independent of most local names: single-definition locals -> their
     initialiser; range-for variables -> each(<range>); structured bindings -> bindN(<init>);
@@ -62,12 +73,12 @@ def naming(fn, program=None, allow_overwritten=False):
             each = ["each", st.get("range")]
             if v.get("binds"):
                 for i, b in enumerate(v["binds"]):
-                    subst[b] = ["bind%d" % i, each]
+                    subst[b] = _bind_term(i, each, v.get("ty"))
             if v.get("n"):
                 subst[v["n"]] = each
         if st.get("k") == "decl" and st.get("binds") and is_expr(st.get("i")):
             for i, b in enumerate(st["binds"]):
-                subst[b] = ["bind%d" % i, st["i"]]
+                subst[b] = _bind_term(i, st["i"], st.get("ty"))
     idx = index_loops(fn)
     if idx:
         subst["@idx"] = idx        # R[i] inside such a loop is rendered each(R) (see formula.expand)
